@@ -563,6 +563,27 @@ def clause_e(c: Check):
                      'of INVALID_SUITE' % ('not inside a handler for ValueError/NotImplementedError' if not covered
                                            else 'consumed outside the handler that converts pattern errors'),
                      '%s:%d' % (g.module.relpath, n.lineno))
+    # which wildcard matcher: pathlib's - wildcards match names that begin with a dot.  `glob.glob` / `iglob` / `fnmatch`
+    # on listings skip such names (unless told otherwise): a case `.b.case` listed only by `*.case` would silently not be
+    # run, not be counted, not be reported
+    gm = g.module
+    for n in ast.walk(gm.tree):
+        if not isinstance(n, ast.Call):
+            continue
+        f_ = gm.enclosing_func(n)
+        d_ = ix.callee(gm, f_, n) if f_ is not None else None
+        if isinstance(d_, External) and d_.dotted in ('glob.glob', 'glob.iglob', 'glob.glob1', 'glob.glob0'):
+            n_glob += 1
+            kw = {k.arg: k.value for k in n.keywords}
+            ih = kw.get('include_hidden')
+            c.expect(isinstance(ih, ast.Constant) and ih.value is True, 'C16-e', 'glob/matches-dot-files@%s' % (f_.key if f_ else gm.name),
+                     'the wildcards of a suite file are matched with %s, which does not match names that begin with a '
+                     'dot: such cases / suites are silently left out of the run and of the reports' % d_.dotted,
+                     '%s:%d' % (gm.relpath, n.lineno))
+        elif isinstance(n.func, ast.Attribute) and n.func.attr in ('glob', 'rglob') and f_ is not None and f_ is not g:
+            n_glob += 1
+            c.require(False, 'C16-e: a glob call outside FileNamesResolverForGlobPattern.resolve (%s:%d) is not understood' % (
+                gm.relpath, n.lineno))
     c.floor('C16-e', 'glob calls in the suite file-name resolver', n_glob, 1)
     # EXC: asking the file system about a path written in a suite file (`stat`, `lstat`, `open`, `read_text`,
     # `resolve(strict)`) fails with an OSError of ANY kind for a bad reference - not only FileNotFoundError: a
